@@ -264,6 +264,67 @@ pub proof fn lemma_documented_examples()
     assert(pop_tuple(seq![11int, 12, 13, 14], a, seq![12int, 11], 2) =~= seq![12int, 11, 13, 14]);
 }
 
+pub open spec fn distinct(args: Seq<usize>) -> bool {
+    forall|i: int, j: int| 0 <= i < j < args.len() ==> args[i] != args[j]
+}
+
+/// closed form of k flips for pairwise distinct indices: the k addressed elements and the k top cells are exchanged
+pub proof fn lemma_flip_closed<T>(c: Seq<T>, colm: Seq<T>, args: Seq<usize>, k: int)
+    requires c.len() == 4, args_ok(args), distinct(args), 0 <= k <= args.len(), args.len() <= colm.len(),
+    ensures
+        flip_tuple(c, colm, args, k).len() == 4,
+        flip_col(c, colm, args, k).len() == colm.len(),
+        forall|j: int| 0 <= j < k ==> #[trigger] flip_tuple(c, colm, args, k)[args[j] - 1] == colm[colm.len() - 1 - j],
+        forall|j: int| 0 <= j < k ==> #[trigger] flip_col(c, colm, args, k)[colm.len() - 1 - j] == c[args[j] - 1],
+        forall|e: int| 0 <= e < 4 && (forall|j: int| 0 <= j < k ==> args[j] - 1 != e) ==> #[trigger] flip_tuple(c, colm, args, k)[e] == c[e],
+        forall|d: int| 0 <= d < colm.len() - k ==> #[trigger] flip_col(c, colm, args, k)[d] == colm[d],
+    decreases k
+{
+    if k > 0 {
+        lemma_flip_closed(c, colm, args, k - 1);
+        lemma_flip_len(c, colm, args, k - 1);
+        let t = flip_tuple(c, colm, args, k - 1);
+        let s = flip_col(c, colm, args, k - 1);
+        let a = args[k - 1] - 1;
+        let cell = colm.len() - k;
+        assert(forall|j: int| 0 <= j < k - 1 ==> args[j] - 1 != a);
+        assert(t[a] == c[a]);
+        assert(s[cell] == colm[cell]);
+        assert(flip_tuple(c, colm, args, k) == t.update(a, s[cell]));
+        assert(flip_col(c, colm, args, k) == s.update(cell, t[a]));
+    }
+}
+
+/// Rumination 002: "flip, like swap, is involutory: apply it twice to do nothing" (for pairwise distinct indices)
+pub proof fn lemma_flip_involution<T>(c: Seq<T>, colm: Seq<T>, args: Seq<usize>)
+    requires c.len() == 4, args_ok(args), distinct(args), args.len() <= colm.len(),
+    ensures
+        flip_tuple(flip_tuple(c, colm, args, args.len() as int), flip_col(c, colm, args, args.len() as int), args, args.len() as int) =~= c,
+        flip_col(flip_tuple(c, colm, args, args.len() as int), flip_col(c, colm, args, args.len() as int), args, args.len() as int) =~= colm,
+{
+    let k = args.len() as int;
+    lemma_flip_closed(c, colm, args, k);
+    let c1 = flip_tuple(c, colm, args, k);
+    let s1 = flip_col(c, colm, args, k);
+    lemma_flip_closed(c1, s1, args, k);
+    let c2 = flip_tuple(c1, s1, args, k);
+    let s2 = flip_col(c1, s1, args, k);
+    assert forall|e: int| 0 <= e < 4 implies c2[e] == c[e] by {
+        if exists|j: int| 0 <= j < k && args[j] - 1 == e {
+            let j = choose|j: int| 0 <= j < k && args[j] - 1 == e;
+            assert(c2[args[j] - 1] == s1[s1.len() - 1 - j]);
+            assert(s1[colm.len() - 1 - j] == c[args[j] - 1]);
+        }
+    }
+    assert forall|d: int| 0 <= d < colm.len() implies s2[d] == colm[d] by {
+        if d >= colm.len() - k {
+            let j = colm.len() - 1 - d;
+            assert(s2[s1.len() - 1 - j] == c1[args[j] - 1]);
+            assert(c1[args[j] - 1] == colm[colm.len() - 1 - j]);
+        }
+    }
+}
+
 } // mod sm
 use sm::*;
 broadcast use {ax::axiom_iter_seq_vec, sm::lemma_flip_len, sm::lemma_pop_len};
